@@ -1,13 +1,13 @@
 /* C11 - the set/get/list API behaves as an ordered map from (section, key) to text.
- * E2: breadth-first search over all histories of econf_setStringValue(section spelling x key x value) from 9 start
- * states (3 constructors, 4 parsed files - one with keys that have no value -, 2 chains that cross the 8 pre-allocated entries), de-duplicated on the
+ * E2: breadth-first search over all histories of econf_setStringValue(section spelling x key x value) from 10 start
+ * states (3 constructors, 5 parsed files - one with keys that have no value, one with a single entry -, 2 chains that cross the 8 pre-allocated entries), de-duplicated on the
  * canonical form of the object. --p0 = depth, --p1 = deepest level whose states are checked against the reference
  * (default = depth), --p2 = bitmask of start states (default all).
  * In every state: every get / get-with-default / listing equals the reference ordered map; section aliases; refused
  * calls have no effect; typed setters store their text; the state is reproducible (canon-on-replay). */
 #include "e2common.h"
 
-static int start_mask = 0x1ff;
+static int start_mask = 0x3ff;
 static int odd_names;   /* --p4 = 1: second alphabet - the bracket pair alone (= group-less), names that are equal under the library's string hash (djb2), an array-style name */
 
 static int bfs_expand(const bfs_hist *h, int op, uint64_t hash[2], uint64_t *refhash)
@@ -206,7 +206,7 @@ int main(int argc, char **argv)
     e2_sec[0] = NULL; e2_sec[1] = "[]"; e2_sec[2] = "Az"; e2_sec[3] = "[BY]"; e2_nsec = 4;   /* the plain spelling BY and the array-style s[0] are used by the getters / typed setters */
     e2_key[0] = "xz"; e2_key[1] = "yY"; e2_key[2] = "xz "; e2_nkey = 3;
   }
-  bfs_nstarts = 9; bfs_nops = e2_nsec * e2_nkey * e2_nval;
+  bfs_nstarts = 10; bfs_nops = e2_nsec * e2_nkey * e2_nval;
   if (mc_opt.case_id) {
     bfs_hist h; bfs_parse_id(mc_opt.case_id, &h);
     mc_verbose = 1;
